@@ -12,12 +12,12 @@ import PngVerif.Model.Util
   `m<n>` `set_max_total_output(n)` · `c<n>` charge `n` bytes · `n` pull that appends nothing ·
   `p<k>` pull with one `decompress` producing `k` · `z` inflater error (prepare only) · `r` `unfilter_curr_row` ·
   `w<r>` new pass with row length `r` · `s` scratch resize · `k<k>` skip with one `decompress` producing `k` ·
-  `N<rowlen>:<outLine>:<bpp>` next frame · `e` `Reader::finish` ·
+  `N<rowlen>:<outLine>:<bpp>` next frame (refused by `Limits`: nothing installed, no further frame) · `e` `Reader::finish` ·
   flushes into the unfiltering buffer: `fi` (loop not entered) · `f<k1>.<k2>…<kl>` (explicit iterations, the last
   one final) · `F<T>` (an inflater that fills the space it is offered until `T` bytes are out; `F0` = `fi`);
   the same into a discard vector: `gi`, `g<k1>.….<kl>`, `G<T>`.
 * answer: one token per op `ubLen:prevStart:curStart/bufLen:outPos:readPos/scratchLen/limit/<f|-><u|->`
-  (`f` = consumed_and_flushed, `u` = some frame start was refused), or `refused` / `panic` / `bad-op` and then
+  (`f` = consumed_and_flushed, `u` = some frame start was refused by `Limits`, and not installed), or `refused` / `panic` / `bad-op` and then
   `dead` for the rest; then `hw:<zHigh>:<tmpHigh>:<flushHigh>` and `bound:ok` or `bound:VIOLATED@<i>` — the
   conclusion of `C06_reader_buffers_bounded` evaluated on every state reached (index of the first op after
   which it fails).  `read_info` refused by `Limits`: the single token `no-reader`. -/
@@ -98,14 +98,14 @@ def DPOp.isFlush : DPOp → Bool
 
 def showSizes (s : DPSizes) : String :=
   s!"{s.ubLen}:{s.prevStart}:{s.curStart}/{s.bufLen}:{s.outPos}:{s.readPos}/{s.scratchLen}/{s.limit}/" ++
-    (if s.flushed then "f" else "-") ++ (if s.unpaid then "u" else "-")
+    (if s.flushed then "f" else "-") ++ (if s.limitHit then "u" else "-")
 
 /-- the conclusion of `C06_reader_buffers_bounded` on a state (`L` = initial budget) -/
 def boundHolds (c : ZCfg) (L : Nat) (st : DP) : Bool :=
   decide (st.ub.data.length + 2 ≤ 2 * st.frame.rowlen + max c.window st.flushHigh) &&
   decide (st.z.bufLen ≤ st.zHigh) && decide (st.zHigh ≤ c.window) &&
   decide (st.tmpHigh ≤ max c.window st.flushHigh) && decide (st.limit ≤ L) &&
-  (st.unpaid || (decide (st.scratchLen ≤ L - st.limit) && decide (st.frame.outLine ≤ L - st.limit)))
+  decide (st.scratchLen ≤ L - st.limit) && decide (st.frame.outLine ≤ L - st.limit)
 
 structure Acc where
   st : Option DP
